@@ -1,14 +1,43 @@
 (* C08 -- a refused allocation at any point fails cleanly.
+   First sentence (the parser): proved on the allocation-level model (Impl/Heap.v, see Properties_C07.v) for EVERY
+   refusal plan -- any subset of the allocator requests refused: the first, the last, any in between, alone or with
+   later ones -- every generator-producible environment and every input shorter than 2^31: the model never gets
+   stuck (it is a total function: no crash), the event sequence obeys the discipline (nothing freed twice, nothing
+   foreign or static freed), and when parsing reports failure nothing is outstanding (no leak); when it still
+   succeeds (the refused requests were not needed -- impossible in fact, see the monitor) the message owns exactly
+   the live blocks.  The model's event sequence is compared with the real library's for every refusal plan the
+   check tries (every single k below the request count of the failure-free run, k+, random subsets).
    Second sentence (the simple append buffer): proved for every history (Proofs/BufHistory.v).
-   First sentence (the parser): carried by the verified monitor of C07 -- its discipline contains
-   "a refused request makes parsing report failure" and "when parsing fails nothing is outstanding and
-   nothing is freed twice" -- run on the traces of the real parser with the k-th request refused, for
-   every k below the number of requests of the failure-free run (and k+, and subsets).  Partial in the same
-   sense as C07. *)
+   Also kept: the sound trace monitor, judging the real traces. *)
 From Coq Require Import ZArith List Bool.
-From PBC Require Import Impl.BufSimple Impl.Ledger Proofs.BufHistory Proofs.LedgerSound.
+From PBC Require Import Impl.Desc Impl.Mem Impl.Canon Impl.BufSimple Impl.Ledger Impl.Heap Impl.HeapInv Proofs.BufHistory Proofs.LedgerSound Proofs.HeapSafe Proofs.Examples.
 Import ListNotations.
 Local Open Scope Z_scope.
+
+(* ---- the parser under an arbitrary refusal plan (allocation-level model) *)
+Theorem C08_any_refusals_fail_cleanly : forall (E : env) (plan : nat -> bool) (szmsg : nat -> Z) (d : nat) (data : list Z),
+  env_ok E = true -> Forall (fun b => 0 <= b < 256) data -> Mem.zlen data < 2147483648 ->
+  let r := h_unpack E plan szmsg (S (length data)) d data (mkH 0 []) in
+  match fst r with
+  | None => live_of (snd r) = Some []
+  | Some m => lives (snd r) (owned m) /\ live_of (snd (h_free E m (snd r))) = Some []
+  end.
+Proof. exact heap_trace_discipline. Qed.
+Print Assumptions C08_any_refusals_fail_cleanly.
+
+Theorem C08_nothing_outstanding_after_the_run : forall (E : env) (plan : nat -> bool) (szmsg : nat -> Z) (d : nat) (data : list Z),
+  env_ok E = true -> Forall (fun b => 0 <= b < 256) data -> Mem.zlen data < 2147483648 ->
+  live_of (snd (h_run E plan szmsg d data (mkH 0 []))) = Some [].
+Proof. exact run_returns_everything. Qed.
+Print Assumptions C08_nothing_outstanding_after_the_run.
+
+(* refusing request number 3 of the accepted example input (the string of the embedded message): failure, and the
+   three blocks granted before are returned *)
+Example C08_nonvacuous :
+  let r := h_run ex_env (fun k => Nat.eqb k 3) (fun _ => 152) 0 [8; 150; 1; 26; 2; 1; 2; 58; 4; 8; 1; 18; 0] (mkH 0 []) in
+  fst r = false /\ existsb (fun e => match e with EvR 3 _ => true | _ => false end) (h_trace (snd r)) = true /\
+  live_of (snd r) = Some [].
+Proof. vm_compute. repeat split. Qed.
 
 Theorem C08_refused_growth_keeps_buffer : forall cap plan b chunk,
   1 <= cap -> binv cap b ->
